@@ -301,6 +301,23 @@ func genC06(t *rapid.T) *Scenario {
 	}
 	sc.NoFinish = rapid.IntRange(0, 3).Draw(t, "nofinish") == 0
 	sc.PreCancel = rapid.IntRange(0, 9).Draw(t, "precancel") == 0 // built on a context that is cancelled already
+	if sc.Stage == "join" && nIn >= 2 && rapid.IntRange(0, 2).Draw(t, "lastSlot") == 0 {
+		// several copiers reach for the last free slot of the output at the same instant, then nobody receives and the context is cancelled
+		sc.PreCancel, sc.NoFinish, sc.Repeat, sc.Prefill = false, true, 6, 0
+		for i := range sc.In {
+			sc.Caps[i] = 0
+			sc.In[i] = []int{i * 1000, i*1000 + 1, i*1000 + 2, i*1000 + 3}
+		}
+		sc.Script = nil
+		for j := 0; j < nIn-1; j++ {
+			sc.Script = append(sc.Script, Move{K: "send", I: j})
+		}
+		var all []Move
+		for j := 0; j < nIn; j++ {
+			all = append(all, Move{K: "send", I: j})
+		}
+		sc.Script = append(sc.Script, Move{K: "batch", Sub: all}, Move{K: "cancel"})
+	}
 	return sc
 }
 
